@@ -178,10 +178,13 @@ pub struct TreeCfg {
     pub shape_weights: [u32; 3],
     /// literal spellings to draw from
     pub lits: &'static [&'static str],
+    /// percentage of nodes that additionally get a tower of 14-43 unary operators (beyond the 16
+    /// unary operators a node stores inline); 0 = never, and then no tape entry is consumed
+    pub tower_pct: u32,
 }
 impl Default for TreeCfg {
     fn default() -> Self {
-        TreeCfg { max_operands: 8, lit_pct: 45, unary_pct: 20, shape_weights: [6, 2, 1], lits: &LITERALS }
+        TreeCfg { max_operands: 8, lit_pct: 45, unary_pct: 20, shape_weights: [6, 2, 1], lits: &LITERALS, tower_pct: 0 }
     }
 }
 
@@ -220,6 +223,12 @@ fn wrap_unary(t: &mut Tape, ti: &TableIdx, cfg: &TreeCfg, mut tr: Tree) -> Tree 
     while t.chance(pct) {
         tr = Tree::Un(*t.pick(&ti.uns), Box::new(tr));
         pct = 35; // compositions of length >= 2 are common once a unary operator is there
+    }
+    if cfg.tower_pct > 0 && t.chance(cfg.tower_pct) {
+        let k = 14 + t.choose(30);
+        for _ in 0..k {
+            tr = Tree::Un(*t.pick(&ti.uns), Box::new(tr));
+        }
     }
     tr
 }
@@ -682,6 +691,8 @@ pub struct TreeFacts {
     pub n_lits: usize,
     pub n_vars_occ: usize,
     pub has_unary: bool,
+    /// length of the longest composition of unary operators
+    pub max_unary_chain: usize,
 }
 
 pub fn tree_facts(tr: &Tree, table: &[OpSpec]) -> TreeFacts {
@@ -717,6 +728,13 @@ pub fn tree_facts(tr: &Tree, table: &[OpSpec]) -> TreeFacts {
                 if matches!(**a, Tree::Un(..)) {
                     f.unary_chain2 = true;
                 }
+                let mut len = 1;
+                let mut cur = &**a;
+                while let Tree::Un(_, b) = cur {
+                    len += 1;
+                    cur = &**b;
+                }
+                f.max_unary_chain = f.max_unary_chain.max(len);
                 rec(a, table, f, leaves, un_roles, bin_roles);
             }
             Tree::Bin(o, a, b) => {
